@@ -18,6 +18,8 @@ def cargo():
     for feat in ('none', 'std', 'alloc'):
         c.build_harness(feat, 'release')
     c.build_cli()
+    from vlib import explore
+    explore.build()          # the coverage-guided search targets (cargo-fuzz, nightly toolchain)
 try:
     with ThreadPoolExecutor(max_workers=2) as ex:
         fs = [ex.submit(coq), ex.submit(cargo)]
